@@ -460,7 +460,8 @@ func (c *Cache) readDump(r io.Reader) (int, error) {
 			}
 
 			i := &item{
-				resp:           resp,
+				// A dump is external input. Stored messages never have OPT records.
+				resp:           copyNoOpt(resp),
 				storedTime:     storedTime,
 				expirationTime: msgExpTime,
 			}
